@@ -319,6 +319,16 @@ class SimpleJSONRPCDispatcher(SimpleXMLRPCDispatcher, object):
         except NoMulticallResult:
             # Return an empty string (jsonrpclib internal behaviour)
             return ""
+        except Exception as ex:
+            # Internal error while handling the request (e.g. a request
+            # content which can't be converted to a string for a message)
+            fault = Fault(
+                -32603,
+                "{0}:{1}".format(type(ex).__name__, ex),
+                config=self.json_config,
+            )
+            _logger.error("Error handling request: %s", fault)
+            return fault.response()
 
     def _marshaled_single_dispatch(self, request, dispatch_method=None):
         """
